@@ -154,10 +154,12 @@ def oracle_facts(T, root: Path, jail_abs: str, exts, yielded, diag_keys):
     jail_real = os.path.realpath(jail_abs)
     escapes, below_nested = [], []
     yreal = set()
+    yown = set()  # yielded paths re-spelled below the real scan root (a file must be yielded under its OWN path, not only via an alias)
     for y in yielded:
         ya = os.path.abspath(y)
         r = os.path.realpath(ya)
         yreal.add(r)
+        yown.add(os.path.normpath(os.path.join(root_real, os.path.relpath(ya, root_abs))))
         if not _inside(r, jail_real):
             escapes.append([os.path.relpath(ya, root_abs), canon_id(T, r)])
         # proper ancestors strictly below the scan root
@@ -175,7 +177,7 @@ def oracle_facts(T, root: Path, jail_abs: str, exts, yielded, diag_keys):
             full = os.path.join(d, name)
             st = os.lstat(full)
             if stat.S_ISREG(st.st_mode):
-                if os.path.splitext(name)[1] in exts and full not in yreal:
+                if os.path.splitext(name)[1] in exts and full not in yreal:  # NB: a file inside an aliased directory is legitimately yielded only under the alias spelling
                     missing.append(canon_id(T, full))
             elif stat.S_ISDIR(st.st_mode):
                 tm = os.path.join(full, "snooty.toml")
@@ -198,7 +200,9 @@ def gen_case(rng, loops: bool):
     mode = rng.choice(["source+proj", "source+proj", "proj", "source"])
     scan = "proj" if mode == "proj" else "proj/source"
     jail = "proj" if mode == "source+proj" else None
-    ops = [["d", "outside"], ["d", "outside/sub"], ["f", "outside/o.txt"], ["f", "outside/sub/p.rst"], ["d", "proj"]]
+    # "proj-archive" is OUTSIDE the project although its path has the project's path as a string prefix
+    ops = [["d", "outside"], ["d", "outside/sub"], ["f", "outside/o.txt"], ["f", "outside/sub/p.rst"], ["d", "proj"],
+           ["d", "proj-archive"], ["f", "proj-archive/z.txt"]]
     if rng.random() < 0.8:
         ops.append(["f", "proj/snooty.toml"])
     ops += [["d", "proj/source"], ["d", "proj/other"], ["f", "proj/other/q.txt"], ["d", "proj/other/deep"], ["f", "proj/other/deep/r.rst"]]
@@ -262,7 +266,7 @@ def gen_case(rng, loops: bool):
             ch = [a for a in real if posixpath.dirname(a) == loc]
             tgt = rng.choice(ch) if ch else rng.choice(real)
         elif kind == "outside":
-            tgt = rng.choice(["outside", "outside/sub"])
+            tgt = rng.choice(["outside", "outside/sub", "proj-archive"])
         elif kind == "T":
             tgt = "."
         elif kind == "other":
@@ -276,7 +280,7 @@ def gen_case(rng, loops: bool):
         elif kind == "file-in":
             tgt, isfile = (rng.choice(files) if files else "proj/other/q.txt"), True
         elif kind == "file-out":
-            tgt, isfile = rng.choice(["outside/o.txt", "outside/sub/p.rst"]), True
+            tgt, isfile = rng.choice(["outside/o.txt", "outside/sub/p.rst", "proj-archive/z.txt"]), True
         elif kind == "file-other":
             tgt, isfile = rng.choice(["proj/other/q.txt", "proj/other/deep/r.rst"]), True
         elif kind == "nested-inner":
